@@ -230,8 +230,12 @@ func (c *Client) handlePacket(pktx pkts.Packet) error {
 		transactionx, _ := c.transactions.Get(pkt.MessageID())
 		transaction, ok := transactionx.(*brokerPublishQOS2Transaction)
 		if !ok {
-			c.log.Error("Unexpected transaction type %T for packet: %v", transactionx, pkt)
-			return nil
+			// No such incoming QoS 2 exchange (any more): a retransmitted
+			// PUBREL whose PUBCOMP was lost. It must be acknowledged again
+			// or the sender would never complete its exchange.
+			pubcomp := pkts1.NewPubcomp()
+			pubcomp.CopyMessageID(pkt)
+			return c.send(pubcomp)
 		}
 		transaction.Pubrel(pkt)
 		return nil
